@@ -15,13 +15,16 @@ use engine::{drive, Args};
 /// Dispatches a property id to its engine.
 pub fn run_property(id: &str, args: &Args) -> i32 {
     match id {
+        "C01" => drive(&engine::c01::C01, args),
         "C02" => drive(&engine::props_write::c02(), args),
         "C05" => drive(&engine::c05::C05, args),
+        "C06" => drive(&engine::c06::C06, args),
         "C08" => drive(&engine::props_write::c08(), args),
         "C09" => drive(&engine::c09::C09, args),
         "C10" => drive(&engine::c10::C10, args),
         "C11" => drive(&engine::props_write::c11(), args),
         "C16" => drive(&engine::props_write::c16(), args),
+        "C18" => drive(&engine::props_damage::c18(), args),
         _ => {
             println!("unknown property {id}");
             2
